@@ -286,6 +286,15 @@ def run(oc, tier, seed, model_available, escalate):
     oc.count("header: layouts", nh)
     oc.sample({"request": lines[-1][:200], "impl_reply": impl[-1][:200]})
 
+    # ---- real generation runs (real codec and hasher): the ecc file equals the model's generated file byte for byte, and every parity the
+    # codec returns has the length the rule gives (also for blocks without parity symbols at very low rates)
+    import ecc_file_x as fx
+    gd = os.path.join(common.scratch(), "c10gen")
+    gl, gi = fx.gen_cases(rng, (18 if tier == "quick" else 300) * (2 if escalate else 1), gd, oc, label="real generation")
+    lines += gl
+    impl += gi
+    import shutil
+    shutil.rmtree(gd, ignore_errors=True)
     if model_available:
         model, err = common.run_driver(lines)
         if model is None:
